@@ -23,7 +23,7 @@ THEOREMS = [
     "absent_limit", "limit_exec_spec", "topn_absent_limit", "merge_iter_sorted", "memtable_sorted",
     "compaction_sorted_perm", "merge_heap_bounds", "merge_heap_sorted", "topn_heap_eq_order_limit",
     "concat_scan_sorted_iff", "table_scan_sorted", "two_rowsets_scan_sorted", "scan_contract_sorted", "order_analysis_sound",
-    "useless_order_sound_partial", "useless_order_sound",
+    "useless_order_sound_partial", "useless_order_sound", "reachable_rowsets_sorted", "useless_order_sound_reachable",
 ]
 
 PRECEDENCE = [
@@ -783,6 +783,56 @@ end RlModel.Gen
     return text
 
 
+def gen_rowset_stop(repo, write=True):
+    import re
+    lean_dir = vlib.LEAN
+    """Re-extracts from RowSetIterator::next_batch_inner the condition under which a range scan ends
+    after the current batch (`if <cond> { self.end = true; }` inside the range-filter block) and
+    writes lean/RlModel/Gen/RowSetStop.lean."""
+    src = open(os.path.join(repo, "src/storage/secondary/rowset/rowset_iterator.rs")).read()
+    m = re.search(r"if let Some\(range\) = &self\.filter(.*?)arrays\.push\(array\);", src, re.S)
+    if not m:
+        raise ValueError("range-filter block of next_batch_inner not found")
+    block = m.group(1)
+    conds = re.findall(r"if ([^{}]+?)\{\s*self\.end = true;\s*\}", block)
+    if len(conds) != 1:
+        raise ValueError("expected exactly one `if … { self.end = true; }` in the range-filter block, found %d" % len(conds))
+    cond = " ".join(conds[0].split())
+    e = cond
+    for a, b in (("start_row_id", "lo"), ("end_row_id", "hi"), ("array.len()", "len")):
+        e = e.replace(a, b)
+    e = e.replace("==", "=").replace("!=", "≠").replace(">=", "≥").replace("<=", "≤").replace("&&", "∧").replace("||", "∨")
+    if not re.fullmatch(r"[\s0-9()=≠≥≤<>∧∨+\-*]*(?:(?:lo|hi|len)[\s0-9()=≠≥≤<>∧∨+\-*]*)*", e):
+        raise ValueError("cannot translate stop condition: " + cond)
+    text = """/- GENERATED on every run of ./check C13 by checks/c13.py (gen_rowset_stop) from
+   src/storage/secondary/rowset/rowset_iterator.rs, fn next_batch_inner. Do not edit. -/
+namespace RlModel.Gen
+
+/-- `if %s { self.end = true; }` — `lo`/`hi` = start_row_id/end_row_id of the batch's mask,
+`len` = rows in the batch -/
+def rangeStop (lo hi len : Nat) : Bool := decide (%s)
+
+end RlModel.Gen
+""" % (cond, e)
+    path = os.path.join(lean_dir, "RlModel", "Gen", "RowSetStop.lean")
+    if write:
+        old = open(path).read() if os.path.exists(path) else None
+        if old != text:
+            open(path, "w").write(text)
+    return text
+
+
+def run_translators(ck):
+    """Step 1 of both checks: the parts of the model that are DATA in the source are regenerated
+    from the repository under test (never from a previous run's copy)."""
+    for name, f in (("merge-heap-bounds", gen_merge_heap), ("rowset-stop-condition", gen_rowset_stop)):
+        try:
+            f(vlib.REPO)
+        except Exception as ex:     # strict translator: anything unparsed fails the check
+            ck.report("translator:" + name, "the source is no longer in the shape the translator reads: %s" % ex,
+                      replay={"translator": name, "error": str(ex)}, found_input=False)
+
+
 # ---------------------------------------------------------------------------------------------
 # the check
 # ---------------------------------------------------------------------------------------------
@@ -827,11 +877,7 @@ def finish_reports(ck, T, binname):
 
 def run(ck):
     n = 420 if ck.quick() else 3000
-    try:
-        gen_merge_heap(vlib.REPO)
-    except Exception as ex:     # strict translator: anything unparsed fails the check
-        ck.report("translator:merge-heap-bounds", "MergeIterator::replace_pending_data is no longer in the shape the translator reads: %s" % ex,
-                  replay={"file": "src/storage/secondary/merge_iterator.rs", "error": str(ex)}, found_input=False)
+    run_translators(ck)
     bad = vlib.step_lean(ck, "RlModel.Thm.C12", THEOREMS, extra_targets=["drv_c12"])
     ok, log = vlib.step_cargo(ck, ["c12"])
     if not ok:
